@@ -369,6 +369,38 @@ fn build_handler(toks: &[&str]) -> Option<Built> {
     Some(Built { handler: DynHandler { name, tid, prio, params, starts, body } })
 }
 
+// ---- ordinary function handlers (FunctionHandler, tuple parameter glue, .high() / .low() / .no_type_id()) ---------
+
+fn fn0(r: Receiver<G0>) {
+    trace(format!("h fn0 G0(s{})", r.event.0.serial));
+}
+
+fn fn1(r: Receiver<G0>, mut f: Fetcher<(EntityId, &'static K0)>) {
+    trace(format!("h fn1 G0(s{})", r.event.0.serial));
+    let mut items: Vec<String> = f.iter_mut().map(|(e, k)| format!("({},r0={},)", ord_of(e), k.0)).collect();
+    items.sort();
+    trace(format!(" it1 [{}] len={}", items.join(";"), items.len()));
+}
+
+fn fn2(r: Receiver<T0, EntityId>) {
+    trace(format!("h fn2 T0(s{})@{}", r.event.0.serial, ord_of(r.query)));
+}
+
+fn fn3(r: evenio::event::ReceiverMut<G1>, s: Sender<(G0, Spawn)>) {
+    trace(format!("h fn3 G1(s{})", r.event.0.serial));
+    let ent = r.event.0.ent;
+    if take_budget() {
+        s.send(G0(Pay { serial: fresh_e(), ent }));
+    }
+    let owned: G1 = evenio::event::EventMut::take(r.event);
+    trace(" took".into());
+    drop(owned);
+}
+
+fn short_name(n: &str) -> &str {
+    n.rsplit("::").next().unwrap_or(n)
+}
+
 // ---- executor ------------------------------------------------------------------------------------
 
 struct Exec {
@@ -576,8 +608,32 @@ impl Exec {
                     Ok(vec!["ret ok".into(), format!("id h {}v{}", id.index().0, id.generation())])
                 }
             }
+            ["addfn", f, wrap] => {
+                let before = w.handlers().iter().count();
+                macro_rules! add {
+                    ($f:ident) => {
+                        match *wrap {
+                            "plain" => w.add_handler($f),
+                            "high" => w.add_handler($f.high()),
+                            "low" => w.add_handler($f.low()),
+                            "notid" => w.add_handler($f.no_type_id()),
+                            _ => return Err(bad()),
+                        }
+                    };
+                }
+                let id = match *f {
+                    "fn0" => add!(fn0),
+                    "fn1" => add!(fn1),
+                    "fn2" => add!(fn2),
+                    "fn3" => add!(fn3),
+                    _ => return Err(bad()),
+                };
+                let after = w.handlers().iter().count();
+                let tag = if after == before { "ret dup" } else { "ret ok" };
+                Ok(vec![tag.into(), format!("id h {}v{}", id.index().0, id.generation())])
+            }
             ["rmh", name] => {
-                let found = w.handlers().iter().find(|h| h.name() == *name).map(|h| h.id());
+                let found = w.handlers().iter().find(|h| short_name(h.name()) == *name).map(|h| h.id());
                 match found {
                     Some(id) => {
                         let r = w.remove_handler(id);
@@ -734,7 +790,7 @@ impl Exec {
             }
         }
         for h in w.handlers().iter() {
-            r.h.push((h.name().to_string(), h.id()));
+            r.h.push((short_name(h.name()).to_string(), h.id()));
         }
         r
     }
